@@ -147,11 +147,18 @@ func c44Spec(t client.Tunnel) string {
 	if t.Insecure {
 		s += "+insecure"
 	}
-	switch {
-	case t.ProxyHeaderMode == "custom":
+	if t.ProxyHeaderMode == "custom" {
 		s += "+host=" + t.ProxyHeaderHost
-	case t.ProxyHeaderMode != "":
-		s += "+mode=" + t.ProxyHeaderMode
+	} else {
+		if t.ProxyHeaderMode != "" {
+			s += "+mode=" + t.ProxyHeaderMode
+		}
+		if t.ProxyHeaderHost != "" {
+			s += "+lhost=" + t.ProxyHeaderHost
+		}
+	}
+	if t.ProxyHeaderTimeout != 0 {
+		s += "+timeout=" + t.ProxyHeaderTimeout.String()
 	}
 	return s
 }
